@@ -57,6 +57,9 @@ func cwExpected(w *workload) []rec {
 				for b, cnt := range s.histF {
 					add("stats.timers."+s.Name+".histogram", cwDims(append(append([]string(nil), s.Tags...), leTag(b))), float64(cnt), "timer.histogram")
 				}
+				for _, suffix := range allTimerSubs() {
+					out = append(out, rec{Name: "stats.timers." + s.Name + "." + suffix, Tags: tg, Class: gsdSummary, Ser: i, Forbidden: true})
+				}
 				continue
 			}
 			for _, sm := range stdTimerSubs(s, w.Disabled) {
@@ -185,6 +188,9 @@ func stdoutExpected(w *workload) []rec {
 			if s.IsHist {
 				for b, cnt := range s.histF {
 					add("stats.timers."+nk+".histogram."+leTag(b), float64(cnt), "timer.histogram")
+				}
+				for _, suffix := range allTimerSubs() {
+					out = append(out, rec{Name: "stats.timers." + nk + "." + suffix, Class: gsdSummary, Ser: i, Forbidden: true})
 				}
 				continue
 			}
